@@ -54,7 +54,8 @@ def sites(case, specie='Li'):
     frac = np.array(case['sites']['frac'], float)
     if case['sites'].get('image_shift') is not None:
         frac = frac + np.array(case['sites']['image_shift'], float)
-    return cases.sites_structure(case['lattice']['matrix'], frac, case['sites']['labels'], specie)
+    M = np.array(case['lattice']['matrix'], float) * float(case.get('sites_cell_scale', 1.0))  # the site structure may come from a slightly different cell
+    return cases.sites_structure(M, frac, case['sites']['labels'], specie)
 
 
 def radius_arg(case):
